@@ -429,6 +429,24 @@ func listInputs(r *gen.RNG, emit func(string, []byte)) {
 			emit("foreign-props", of)
 		}
 	}
+	// property sections that switch thousands of times between two kinds of
+	// property (work per *group* of equal neighbours shows here, long runs
+	// of one kind hide it): user property / subscription identifier, user
+	// property / a repeated singleton, in PUBLISH and in CONNACK
+	if r.Chance(1, 40) {
+		groups := gen.Pick(r, 1000, 4000, 12000, 30000)
+		for _, other := range [][]byte{{0x0b, 0x05}, {0x01, 0x01}, {0x23, 0x00, 0x07}} {
+			var props []byte
+			for i := 0; i < groups; i++ {
+				props = append(props, 0x26, 0, 1, 'k', 0, 1, 'v')
+				props = append(props, other...)
+			}
+			body := []byte{0, 1, 't'}
+			body = ref.AppendVBI(body, uint32(len(props)))
+			body = append(body, props...)
+			emit("alternating-props", ref.Reframe(0x30, body))
+		}
+	}
 	// several large frames (4 MiB and more), fully delivered, whose content is
 	// malformed, followed by a valid large one: whatever a decoder reserves
 	// for large bodies must be given back on every path
@@ -441,7 +459,12 @@ func listInputs(r *gen.RNG, emit func(string, []byte)) {
 			body := make([]byte, n)
 			copy(body, []byte{0, 1, 't', 3, 0x7e, 0, 0}) // topic "t", property length 3, undefined identifier
 			if k == 5 {
-				copy(body, []byte{0, 1, 't', 0}) // the last one is a valid PUBLISH
+				// the last one is a valid PUBLISH, and larger: 8 MiB and more
+				n = 8<<20 + 1 + r.Intn(1<<16)
+				b = append(b[:0], 0x30)
+				b = ref.AppendVBI(b, uint32(n))
+				body = make([]byte, n)
+				copy(body, []byte{0, 1, 't', 0})
 			}
 			emit("large-malformed", append(b, body...))
 		}
